@@ -20,7 +20,8 @@ RULE = ('every n in 1..N (quick 256, thorough 1024) x {float16,bfloat16,float32,
         'NonSquareTensorError with zero backend operations; non-trivial: n>=2; distinct = (n, dtype, content, layout)')
 ASSUMPTIONS = ['contents that are not exactly representable in the dtype are skipped (counted)',
                'groups of size 1 short-circuit before validation; that behaviour is recorded, not judged',
-               'simdist stands in for the c10d backend (see DESIGN.md section 2.1)']
+               'simdist stands in for the c10d backend (see DESIGN.md section 2.1); a few worlds per shard run the same per-rank program as real gloo processes '
+               '(counted as real_gloo_worlds; gloo being unavailable or timing out is a counted skip, never a verdict)']
 REQUIRED = ['roundtrip_checks', 'comm_equalities', 'reject_checks']
 
 
@@ -87,15 +88,10 @@ def roundtrip(n, res):
     res.sample(dict(n=n, contents=['min', 'max', 'random', 'index', 'extreme'], layouts=['contiguous', 'transposed', 'strided']))
 
 
-def comm_case(rng, res, idx):
-    """symmetric vs dense communication on a simulated world; rejection before any op."""
-    import torch
-    import torch.distributed as dist
-    from kverif import simdist
-
+def make_comm_plan(rng):
     W = rng.choice([2, 3, 4])
     n = rng.choice([1, 2, 3, 5, 8, 13])
-    dt = rng.choice([torch.float32, torch.float64, torch.bfloat16])
+    dt = rng.choice(['float32', 'float64', 'bfloat16'])
     cap = rng.choice([1e-9, 1e-5, 25.0])
     nt = rng.randint(1, 4)
     src = rng.randrange(W)
@@ -104,46 +100,58 @@ def comm_case(rng, res, idx):
     bad_shapes = [rng.choice([(2, 3), (3, 2), (1, 4), (4,), (2, 2, 2), (5, 1)]) for _ in range(2)]
     seeds = [[rng.randrange(2 ** 31) for _ in range(nt)] for _ in range(W)]
     ext_seed = rng.randrange(2 ** 31) if rng.random() < 0.4 else None   # the broadcast matrix sits at the edges of the dtype
-    case = dict(idx=idx, W=W, n=n, dtype=str(dt), cap=cap, tensors=nt, src=src, group=sub, bad_shapes=bad_shapes, ext_seed=ext_seed)
+    return dict(W=W, n=n, dtype=dt, cap=cap, tensors=nt, src=src, use_sub=use_sub, group=sub, bad_shapes=bad_shapes, seeds=seeds, ext_seed=ext_seed)
 
-    def bmat(rank):
-        return extreme(n, dt, ext_seed) if ext_seed is not None else mats(rank)[0]
 
-    def mats(rank):
-        out = []
-        for s in seeds[rank]:
-            g = torch.Generator().manual_seed(s)
-            r = torch.randint(-8, 9, (n, n), generator=g).double()
-            out.append((r + r.t()).to(dt))
-        return out
+def mats(plan, rank):
+    import torch
+    out = []
+    for s in plan['seeds'][rank]:
+        g = torch.Generator().manual_seed(s)
+        r = torch.randint(-8, 9, (plan['n'], plan['n']), generator=g).double()
+        out.append((r + r.t()).to(getattr(torch, plan['dtype'])))
+    return out
+
+
+def bmat(plan, rank):
+    import torch
+    return extreme(plan['n'], getattr(torch, plan['dtype']), plan['ext_seed']) if plan['ext_seed'] is not None else mats(plan, rank)[0]
+
+
+def comm_fn(plan, issued):
+    """per-rank program; `issued(rank)` = number of backend operations this rank has issued so far."""
+    import torch
+    import torch.distributed as dist
+
+    sub, nt, dt = plan['group'], plan['tensors'], getattr(torch, plan['dtype'])
 
     def fn(rank, world):
         from kfac.distributed import NonSquareTensorError, TorchDistributedCommunicator
 
-        grp = dist.new_group(sub) if use_sub else None
+        grp = dist.new_group(sub) if plan['use_sub'] else None
         out = {}
         if rank not in sub:
             return out
-        tdc = TorchDistributedCommunicator(bucket_cap_mb=cap)
-        ms = mats(rank)
+        tdc = TorchDistributedCommunicator(bucket_cap_mb=plan['cap'])
+        ms = mats(plan, rank)
         # rejection first: nothing may reach the backend
-        before = simdist.current().issued_by(rank)
+        before = issued(rank)
         rej = []
-        for shp in bad_shapes:
+        for shp in plan['bad_shapes']:
             t = torch.zeros(*shp, dtype=dt)
             for name, call in (('allreduce', lambda: tdc.allreduce(t, symmetric=True, group=grp)),
                                ('broadcast', lambda: tdc.broadcast(t, src=sub[0], symmetric=True, group=grp)),
                                ('allreduce_bucketed', lambda: tdc.allreduce_bucketed(t, symmetric=True, group=grp))):
                 try:
                     call()
-                    rej.append((name, shp, 'accepted'))
+                    rej.append((name, tuple(shp), 'accepted'))
                 except NonSquareTensorError:
-                    rej.append((name, shp, 'rejected'))
+                    rej.append((name, tuple(shp), 'rejected'))
                 except Exception as e:  # noqa: BLE001
-                    rej.append((name, shp, type(e).__name__))
+                    rej.append((name, tuple(shp), type(e).__name__))
         tdc.flush_allreduce_buckets()
         out['rej'] = rej
-        out['ops_during_rejection'] = simdist.current().issued_by(rank) - before
+        out['ops_during_rejection'] = issued(rank) - before
         res_ = {}
         for avg in (False, True):
             sym = [tdc.allreduce(m.clone(), average=avg, symmetric=True, group=grp) for m in ms]
@@ -154,50 +162,96 @@ def comm_case(rng, res, idx):
             tdc.flush_allreduce_buckets()
             res_[avg] = [[f.wait() if not isinstance(f, torch.Tensor) else f for f in fs] for fs in (sym, den, bsym, bden)]
         out['allreduce'] = res_
-        root = sub[src % len(sub)]
-        b0 = bmat(rank)
+        root = sub[plan['src'] % len(sub)]
+        b0 = bmat(plan, rank)
         bs = tdc.broadcast(b0.clone() if rank == root else torch.zeros_like(b0), src=root, symmetric=True, group=grp)
         bd = tdc.broadcast(b0.clone() if rank == root else torch.zeros_like(b0), src=root, symmetric=False, group=grp)
-        out['broadcast'] = (bs.wait(), bd.wait(), root)
+        out['broadcast'] = (bs.wait() if not isinstance(bs, torch.Tensor) else bs, bd.wait() if not isinstance(bd, torch.Tensor) else bd, root)
         return out
+    return fn
 
-    run = simdist.run_world(W, fn, seed=idx, policy=rng.choice(simdist.POLICIES))
-    if run.failed():
-        return res.violation('symmetric/dense communication scenario failed: ' + run.failure_summary(), case)
-    root_mat = None
+
+def evaluate_comm(plan, results, res, case, where=''):
+    import torch
+    sub, nt, dt = plan['group'], plan['tensors'], getattr(torch, plan['dtype'])
     for rank in sub:
-        o = run.results[rank]
+        o = results[rank]
         res.count('reject_checks', len(o['rej']))
         for name, shp, outcome in o['rej']:
             if outcome != 'rejected':
-                return res.violation(f'{name}(symmetric=True) on shape {shp} was {outcome} instead of raising NonSquareTensorError', case)
+                return res.violation(where + f'{name}(symmetric=True) on shape {tuple(shp)} was {outcome} instead of raising NonSquareTensorError', case)
         if o['ops_during_rejection'] != 0:
-            return res.violation(f'{o["ops_during_rejection"]} backend operations were issued while rejecting non-square tensors', case)
+            return res.violation(where + f'{o["ops_during_rejection"]} backend operations were issued while rejecting non-square tensors', case)
         for avg, (sym, den, bsym, bden) in o['allreduce'].items():
             for j in range(nt):
                 res.count('comm_equalities', 3)
                 for nm, t in (('allreduce symmetric', sym[j]), ('bucketed symmetric', bsym[j]), ('bucketed dense', bden[j])):
                     if t.shape != den[j].shape or t.dtype != den[j].dtype or not torch.equal(t, den[j]):
-                        return res.violation(f'{nm} (average={avg}) differs from the dense allreduce on rank {rank}, tensor {j}', case)
+                        return res.violation(where + f'{nm} (average={avg}) differs from the dense allreduce on rank {rank}, tensor {j}', case)
             # and the dense result is the true sum over the group
-            exp = [sum(mats(r)[j].double() for r in sub) for j in range(nt)]
+            exp = [sum(mats(plan, r)[j].double() for r in sub) for j in range(nt)]
             for j in range(nt):
                 e = exp[j] / len(sub) if avg else exp[j]
                 if not torch.allclose(den[j].double(), e, rtol=4 * float(torch.finfo(dt).eps), atol=0):
-                    return res.violation(f'dense allreduce (average={avg}) is not the group sum on rank {rank}', case)
+                    return res.violation(where + f'dense allreduce (average={avg}) is not the group sum on rank {rank}', case)
         bs, bd, root = o['broadcast']
-        want = bmat(root)
+        want = bmat(plan, root)
         res.count('comm_equalities', 2)
-        if ext_seed is not None:
+        if plan['ext_seed'] is not None:
             res.count('extreme_broadcasts')
         if not same(bs, want) or not same(bd, want):
-            return res.violation(f'symmetric/dense broadcast from {root} did not deliver the root matrix on rank {rank}', case)
+            return res.violation(where + f'symmetric/dense broadcast from {root} did not deliver the root matrix on rank {rank}', case)
+    return True
+
+
+def comm_case(rng, res, idx):
+    """symmetric vs dense communication on a simulated world; rejection before any op."""
+    from kverif import simdist
+
+    plan_ = make_comm_plan(rng)
+    case = dict(idx=idx, **{k: v for k, v in plan_.items() if k != 'seeds'})
+    run = simdist.run_world(plan_['W'], comm_fn(plan_, lambda rank: simdist.current().issued_by(rank)), seed=idx, policy=rng.choice(simdist.POLICIES))
+    if run.failed():
+        return res.violation('symmetric/dense communication scenario failed: ' + run.failure_summary(), case)
+    if evaluate_comm(plan_, run.results, res, case) is not True:
+        return
     res.count('sim_worlds')
     res.count('sim_events', len(run.trace))
     res.add('schedules', run.schedule_hash())
-    if n >= 2:
-        res.nontrivial.add(stable_hash('comm', W, n, str(dt), cap, use_sub))
+    if plan_['n'] >= 2:
+        res.nontrivial.add(stable_hash('comm', plan_['W'], plan_['n'], plan_['dtype'], plan_['cap'], plan_['use_sub']))
     res.sample(case)
+
+
+def real_rank(payload, rank, world):
+    """one rank of a REAL gloo world: the same per-rank program; backend operations are counted at torch.distributed."""
+    import torch.distributed as dist
+    plan_ = make_comm_plan(case_rng(payload['seed'], ID, payload['idx'], 'real'))
+    n = [0]
+    for name in ('all_reduce', 'broadcast', 'all_gather', 'reduce'):
+        orig = getattr(dist, name)
+
+        def wrapped(*a, _orig=orig, **kw):
+            n[0] += 1
+            return _orig(*a, **kw)
+        setattr(dist, name, wrapped)
+    return comm_fn(plan_, lambda r: n[0])(rank, world)
+
+
+def real_comm_case(seed, res, idx):
+    from kverif import realdist
+    plan_ = make_comm_plan(case_rng(seed, ID, idx, 'real'))
+    payload = dict(seed=seed, idx=idx, jitter=(0.25 if case_rng(seed, ID, idx, 'jitter').random() < 0.6 else 0), jitter_seed=idx)
+    case = dict(real_idx=idx, jitter=payload['jitter'], **{k: v for k, v in plan_.items() if k != 'seeds'})
+    out, err = realdist.run('kverif.props.c14', 'real_rank', payload, plan_['W'])
+    if err:
+        if err.startswith('RANK FAILED') and '/kfac/' in err:
+            return res.violation('real gloo world: a rank raised inside kfac: ' + err[-300:], case)
+        res.count('real_gloo_unavailable')
+        return res.skip('real gloo run unavailable: ' + err[:40])
+    res.count('real_gloo_worlds')
+    res.count('real_gloo_jitter_yields', sum((o['jitter'] or {}).get('yields', 0) for o in out))
+    evaluate_comm(plan_, [o['result'] for o in out], res, case, where='real gloo world: ')
 
 
 def plan(tier, seed):
@@ -225,12 +279,18 @@ def run_shard(spec, res):
                 break
             res.evaluations += 1
             comm_case(case_rng(spec['seed'], ID, i), res, i)
+        for j in range(1 if spec['tier'] == 'quick' else 12):
+            if j and dl.over():
+                break
+            real_comm_case(spec['seed'], res, spec['first'] + j)
 
 
 def replay(case, res):
     import os
     seed = int(os.environ.get('VERIF_SEED', '0'))
-    if 'idx' in case:
+    if 'real_idx' in case:
+        real_comm_case(seed, res, case['real_idx'])
+    elif 'idx' in case:
         comm_case(case_rng(seed, ID, case['idx']), res, case['idx'])
     else:
         roundtrip(case['n'], res)
